@@ -63,24 +63,48 @@ def _worker(args):
     return verify_function(*args)
 
 
+def _proc_main(conn, args):
+    try:
+        conn.send(verify_function(*args))
+    except Exception as ex:        # pragma: no cover
+        conn.send({"function": args[0], "status": "crash", "reason": repr(ex), "obligations": [], "seconds": 0})
+    finally:
+        conn.close()
+
+
 def run(qualnames, jobs=16, timeout_ms=10000, want_smt2=False, function_deadline_s=None):
-    """One worker process per function. A worker that exceeds the per-function deadline (z3 does not always
-    honour its own timeout) is killed and the function is reported undecided (status 'timeout')."""
+    """One process per function, at most `jobs` at a time. A process that exceeds its own deadline (z3 does
+    not always honour its timeout) is killed and the function is reported undecided."""
     if function_deadline_s is None:
-        function_deadline_s = max(240, 40 * timeout_ms / 1000)
-    out = []
-    with mp.Pool(min(jobs, max(1, len(qualnames))), maxtasksperchild=1) as pool:
-        handles = [(q, pool.apply_async(_worker, ((q, timeout_ms, want_smt2),))) for q in qualnames]
-        t0 = time.time()
-        for q, h in handles:
-            left = max(1.0, function_deadline_s - (time.time() - t0))
-            try:
-                out.append(h.get(timeout=left))
-            except mp.TimeoutError:
-                out.append({"function": q, "status": "out_of_subset", "reason": f"verification of this function exceeded the {function_deadline_s}s deadline (solver did not return)",
-                            "obligations": [], "seconds": function_deadline_s})
-        pool.terminate()
-    return out
+        function_deadline_s = max(300, 60 * timeout_ms / 1000)
+    pending = list(qualnames)
+    running = {}
+    results = {}
+    while pending or running:
+        while pending and len(running) < jobs:
+            q = pending.pop(0)
+            parent, child = mp.Pipe(duplex=False)
+            p = mp.Process(target=_proc_main, args=(child, (q, timeout_ms, want_smt2)), daemon=True)
+            p.start()
+            child.close()
+            running[q] = (p, parent, time.time())
+        for q, (p, conn, t0) in list(running.items()):
+            if conn.poll(0.05):
+                try:
+                    results[q] = conn.recv()
+                except EOFError:
+                    results[q] = {"function": q, "status": "crash", "reason": "worker died", "obligations": [], "seconds": time.time() - t0}
+                p.join(5)
+                del running[q]
+            elif not p.is_alive():
+                results[q] = {"function": q, "status": "crash", "reason": "worker exited without a result", "obligations": [], "seconds": time.time() - t0}
+                del running[q]
+            elif time.time() - t0 > function_deadline_s:
+                p.kill()
+                results[q] = {"function": q, "status": "out_of_subset", "obligations": [], "seconds": function_deadline_s,
+                              "reason": f"verification of this function exceeded the {function_deadline_s}s deadline (solver did not return)"}
+                del running[q]
+    return [results[q] for q in qualnames]
 
 
 def main():
